@@ -873,7 +873,6 @@ func jsonUnmarshal(m *Machine, c *frame, fn *ssa.Function, a []Value) Value {
 	return IfaceV{}
 }
 
-
 // ReflV models a reflect.Value obtained from reflect.ValueOf (kind and nil-ness only).
 type ReflV struct{ I IfaceV }
 
